@@ -60,7 +60,8 @@ Record blk := mkBlk {
   ob_vals : list Z;                      (* per vote: delta of the address's current chunk *)
   ob_delegs : list Z;                    (* per delegator: delta of delegRwz_balance *)
   ob_matured : list Z;                   (* per reward address: delta of rwcum_balance *)
-  b_wtxs : list wtx                      (* WITHDRAW_REWARD transactions delivered in the block *)
+  b_wtxs : list wtx;                     (* WITHDRAW_REWARD transactions delivered in the block *)
+  ob_deleg_total : Z                     (* sum of the deltas of ALL delegRwz_balance_ records in BeginBlock *)
 }.
 
 Record chain := mkChain { ch_o : opts; ch_blocks : list blk }.
@@ -112,7 +113,7 @@ Definition check_blk (o : opts) (c : cache) (b : blk) : list Z * cache :=
       (* handleBlockRewards returns before any credit and before ConsumeRewards *)
       (cold_codes
        ++ mflag k 2 (zlist_eqb (map (fun _ => 0) (b_votes b)) (ob_vals b))
-       ++ mflag k 3 (zlist_eqb (map (fun _ => 0) (b_delegs b)) (ob_delegs b))
+       ++ mflag k 3 (zlist_eqb (map (fun _ => 0) (b_delegs b)) (ob_delegs b) && (ob_deleg_total b =? 0))
        ++ mflag k 4 (0 =? ob_consumed b)
        ++ mflag k 5 (zlist_eqb (years_proj (b_years b)) (pairs_flat (ob_years b)))
        ++ mflag k 6 (zlist_eqb (map (fun _ => 0) (b_matured_in b)) (ob_matured b)), snd mw)
@@ -125,7 +126,8 @@ Definition check_blk (o : opts) (c : cache) (b : blk) : list Z * cache :=
            (* no AddRewardsBalance call at all (empty pool / early return) = every delta is 0 *)
            ++ mflag k 3 (zlist_eqb (match so_delegs out with
                                  | [] => map (fun _ => 0) (b_delegs b)
-                                 | l => map snd l end) (ob_delegs b))
+                                 | l => map snd l end) (ob_delegs b)
+                         && (zsum (map snd (so_delegs out)) =? ob_deleg_total b))
            ++ mflag k 4 (so_consumed out =? ob_consumed b)
            ++ mflag k 5 (zlist_eqb (years_proj (consume o (b_years b) (b_h b) (snd mw) (so_consumed out)))
                                 (pairs_flat (ob_years b)))
@@ -135,10 +137,12 @@ Definition check_blk (o : opts) (c : cache) (b : blk) : list Z * cache :=
 
 (* implementation-only monitor of one block (votes have distinct addresses in every run) *)
 Definition monitor_blk (o : opts) (b : blk) : list Z :=
-  let credits := zsum (ob_vals b) + zsum (ob_delegs b) in
+  (* what was credited: every vote's chunk delta + every delegator reward balance delta (also of
+     addresses outside the active table) *)
+  let credits := zsum (ob_vals b) + ob_deleg_total b in
   let k := 0 in
   flag (k + 10) (if ob_pull_ok b then credits <=? ob_pull b else credits =? 0)
-  ++ flag (k + 11) (forallb (fun x => 0 <=? x) (ob_vals b ++ ob_delegs b))
+  ++ flag (k + 11) (forallb (fun x => 0 <=? x) (ob_vals b ++ ob_delegs b) && (0 <=? ob_deleg_total b))
   ++ flag (k + 12) (negb (ob_pull_ok b) || (0 <=? ob_pull b)).
 
 Fixpoint check_blocks (o : opts) (c : cache) (i : Z) (bs : list blk) : list Z :=
